@@ -20,7 +20,7 @@ import GojaModel.Generated.C05_Shapes
 namespace GojaModel.C05.Tie
 open GojaModel
 namespace G
-export GojaModel.Generated.C05_Shapes (facts_conversions facts_strnum facts_identity
+export GojaModel.Generated.C05_Shapes (facts_strnum
   facts_includes facts_mathsign facts_parseint whitespaceChars maxIntShift)
 end G
 
@@ -81,17 +81,6 @@ theorem maxInt_tie : (2 : Int) ^ G.maxIntShift = Num.maxInt := by decide
 
 theorem whitespace_tie : G.whitespaceChars = StrNum.trimChars := by decide
 
-/-- runtime.go: every ToIntN goes through `float64ToInt64Mod` (c5b41a6) — the helper itself, `floatToIntClip`, `toLength`,
-`toIndex` and the canonicalisers are TRANSLATED to Lean and proved equal to the model in `DecTie.lean` -/
-theorem conversions_tie : G.facts_conversions = [
-  ("returns:toInt8", ["int8(i)", "int8(float64ToInt64Mod(f))", "0"]),
-  ("returns:toUint8", ["uint8(i)", "uint8(float64ToInt64Mod(f))", "0"]),
-  ("returns:toInt16", ["int16(i)", "int16(float64ToInt64Mod(f))", "0"]),
-  ("returns:toUint16", ["uint16(i)", "uint16(float64ToInt64Mod(f))", "0"]),
-  ("returns:toInt32", ["int32(i)", "int32(float64ToInt64Mod(f))", "0"]),
-  ("returns:toUint32", ["uint32(i)", "uint32(float64ToInt64Mod(f))", "0"])
-] := by rfl
-
 /-- string → number: every conversion trims with `parser.WhitespaceChars` (never `strings.TrimSpace`, e80e384), `radixPrefix`/`stringToInt` decisions (d6061d6, 7637e2e), `ToInteger` (c886782), UTF-16 strings delegate (6010fc8) -/
 theorem strnum_tie : G.facts_strnum = [
   ("conds:radixPrefix", ["len(ss) > 2 && ss[0] == '0'"]),
@@ -106,17 +95,13 @@ theorem strnum_tie : G.facts_strnum = [
   ("trims:unicodeString.toTrimmedUTF8", ["strings.Trim(s.String(), parser.WhitespaceChars)"]),
   ("trims:importedString.toTrimmedUTF8", ["strings.Trim(i.s, parser.WhitespaceChars)"]),
   ("returns:asciiString.ToInteger", ["0", "math.MaxInt64", "math.MinInt64", "floatToIntClip(f)", "0", "i"]),
+  ("conds:asciiString.ToFloat", ["ss == \"\"", "ss == \"Infinity\" || ss == \"+Infinity\"", "ss == \"-Infinity\"", "err != nil", "err == nil"]),
+  ("returns:asciiString.ToFloat", ["0", "math.Inf(1)", "math.Inf(-1)", "float64(i)", "f"]),
+  ("conds:asciiString.ToNumber", ["ss == \"\"", "ss == \"Infinity\" || ss == \"+Infinity\"", "ss == \"-Infinity\"", "err == nil", "err == nil"]),
+  ("returns:asciiString.ToNumber", ["intToValue(0)", "_positiveInf", "_negativeInf", "intToValue(i)", "floatToValue(f)", "_NaN"]),
   ("returns:unicodeString.ToNumber", ["asciiString(s.toTrimmedUTF8()).ToNumber()"]),
   ("returns:unicodeString.ToFloat", ["asciiString(s.toTrimmedUTF8()).ToFloat()"]),
   ("returns:unicodeString.ToInteger", ["asciiString(s.toTrimmedUTF8()).ToInteger()"])
-] := by rfl
-
-/-- value.go / map.go identity: what `Num.sameAs/hash/normKey/mapFinds` transcribe -/
-theorem identity_tie : G.facts_identity = [
-  ("conds:valueFloat.SameAs", ["math.IsNaN(this) && math.IsNaN(o1)", "ret && this == 0", "ret && this == 0"]),
-  ("returns:valueInt.SameAs", ["i == other"]),
-  ("conds:valueFloat.hash", ["f == _negativeZero"]),
-  ("conds:orderedMap.lookup", ["key == _negativeZero"])
 ] := by rfl
 
 /-- builtin_array.go `includes`: search value and BOTH element loops normalise -0 (dd517b9) -/
